@@ -246,17 +246,50 @@ Qed.
 Lemma valid_loop_ascii b r : ascii b = true -> valid_loop (b :: r) = valid_loop r.
 Proof. unfold ascii. intros H. cbn [valid_loop]. now rewrite H. Qed.
 
+(* the word test of the fast path: some byte of the eight has its high bit set *)
+Lemma high_bit_0 b : (N.land (b2n b) 0x80808080 =? 0) = ascii b.
+Proof. destruct b; reflexivity. Qed.
+Lemma high_bit_8 b : (N.land (N.shiftl (b2n b) 8) 0x80808080 =? 0) = ascii b.
+Proof. destruct b; reflexivity. Qed.
+Lemma high_bit_16 b : (N.land (N.shiftl (b2n b) 16) 0x80808080 =? 0) = ascii b.
+Proof. destruct b; reflexivity. Qed.
+Lemma high_bit_24 b : (N.land (N.shiftl (b2n b) 24) 0x80808080 =? 0) = ascii b.
+Proof. destruct b; reflexivity. Qed.
+
+Lemma lor_eqb_0 a b : (N.lor a b =? 0) = (a =? 0) && (b =? 0).
+Proof.
+  destruct (N.eqb_spec (N.lor a b) 0) as [E|E].
+  - apply N.lor_eq_0_iff in E. destruct E as [-> ->]. reflexivity.
+  - destruct (N.eqb_spec a 0) as [->|]; [|reflexivity]. destruct (N.eqb_spec b 0) as [->|]; [|reflexivity].
+    exfalso. apply E. reflexivity.
+Qed.
+
+Lemma le32_high b0 b1 b2 b3 :
+  (N.land (le32 b0 b1 b2 b3) 0x80808080 =? 0) = ascii b0 && ascii b1 && ascii b2 && ascii b3.
+Proof.
+  unfold le32. rewrite !N.land_lor_distr_l, !lor_eqb_0.
+  now rewrite high_bit_0, high_bit_8, high_bit_16, high_bit_24.
+Qed.
+
+Lemma has_high8_spec b0 b1 b2 b3 b4 b5 b6 b7 :
+  has_high8 b0 b1 b2 b3 b4 b5 b6 b7 =
+  negb (ascii b0 && ascii b1 && ascii b2 && ascii b3 && ascii b4 && ascii b5 && ascii b6 && ascii b7).
+Proof.
+  unfold has_high8. rewrite N.land_lor_distr_l, lor_eqb_0, !le32_high. f_equal.
+  now rewrite !andb_assoc.
+Qed.
+
 Lemma skip_ascii8_valid : forall n p, (length p <= n)%nat -> valid_loop (skip_ascii8 p) = valid_loop p.
 Proof.
   induction n; intros p L.
   - destruct p; [reflexivity|cbn in L; lia].
   - destruct p as [|b0 [|b1 [|b2 [|b3 [|b4 [|b5 [|b6 [|b7 r]]]]]]]]; try reflexivity.
-    cbn [skip_ascii8].
+    cbn [skip_ascii8]. rewrite has_high8_spec.
     destruct (ascii b0) eqn:A0; [|reflexivity]. destruct (ascii b1) eqn:A1; [|reflexivity].
     destruct (ascii b2) eqn:A2; [|reflexivity]. destruct (ascii b3) eqn:A3; [|reflexivity].
     destruct (ascii b4) eqn:A4; [|reflexivity]. destruct (ascii b5) eqn:A5; [|reflexivity].
     destruct (ascii b6) eqn:A6; [|reflexivity]. destruct (ascii b7) eqn:A7; [|reflexivity].
-    cbn [andb]. rewrite IHn by (cbn [length] in L; lia).
+    cbn [andb negb]. rewrite IHn by (cbn [length] in L; lia).
     now rewrite !valid_loop_ascii.
 Qed.
 
